@@ -69,6 +69,8 @@ pub trait Inst: Sized {
     const MULTI: bool;
     /// name of the close-like op (first token), if the object has one
     const CLOSE: &'static str;
+    /// ops that the waiting task performs itself (it is awake: its sleeper entry is void), as task 0
+    const OWNER_OPS: &'static [&'static str] = &[];
     fn new(rng: &mut Rng) -> Self;
     /// a random op (text); `single`: only task 0 polls
     fn gen_op(&self, rng: &mut Rng, single: bool) -> String;
@@ -138,6 +140,8 @@ fn run_case<I: Inst>(sink: &mut Sink, id: &str, ops: &mut dyn FnMut(&I, usize) -
         } else if toks[0] == "dropfut" {
             let t: usize = toks[1].parse().unwrap();
             slp.retain(|s| s.task != t);
+        } else if I::OWNER_OPS.contains(&toks[0]) {
+            slp.retain(|s| s.task != 0);
         }
         if !wakes.is_empty() {
             interesting = true;
